@@ -76,7 +76,9 @@ CHECKS = {
                 note="trusted base: the generator of valid configurations (names by [\\w.-]+, effective-name uniqueness, estimates relative to the job's own group's walltime); JSON only"),
     "C18": dict(cat="exploration", engine="E4-direct", tech="property-based testing (Hypothesis): independent expectation for generated SLURM scripts, conservative-decision oracle over generated squeue/sbatch texts, reference model of the retry loop",
                 text="Scripts for 1-3 groups through the real objects vs an independent expectation; squeue texts over the full state "
-                     "vocabulary vs the completion decision; sbatch responses vs GOOD/ERROR; scripted failure sequences vs the retry loop.",
+                     "vocabulary vs the completion decision; sbatch responses vs GOOD/ERROR; scripted failure sequences vs the retry loop; plus "
+                     "whole generated submissions in the simulation world: a batch that is pending or has a job process running is never "
+                     "dropped from, or left out of, the recorded active ids.",
                 note="trusted base: scripted stand-in for jade.utils.run_command._run_command (the process boundary); option spelling compared modulo '_'/'-'"),
     "C19": dict(cat="exploration", engine="E4-direct", tech="property-based testing (Hypothesis) with real child processes: argv/env round-trip through an independent POSIX quoter and a /bin/sh probe",
                 text="Argument lists over a quoting/whitespace/special-character alphabet are rendered by an independent quoter, run for "
